@@ -2,6 +2,7 @@ package characteristic
 
 import (
 	"fmt"
+	"math"
 	"net"
 
 	"github.com/xiam/to"
@@ -121,6 +122,12 @@ func (c *Characteristic) getValue(conn net.Conn) interface{} {
 func (c *Characteristic) updateValue(value interface{}, conn net.Conn, checkPerms bool) {
 	value = c.convert(value)
 
+	// Ignore values which cannot be represented by the format
+	// (e.g. a number for a string, or NaN for a float characteristic)
+	if value == nil {
+		return
+	}
+
 	// Value must be within min and max
 	switch c.Format {
 	case FormatFloat:
@@ -189,7 +196,12 @@ func (c *Characteristic) clampInt(value int) interface{} {
 func (c *Characteristic) convert(v interface{}) interface{} {
 	switch c.Format {
 	case FormatFloat:
-		return to.Float64(v)
+		f := to.Float64(v)
+		if math.IsNaN(f) || math.IsInf(f, 0) {
+			// not a finite number (e.g. from string "NaN")
+			return nil
+		}
+		return f
 	case FormatUInt8:
 		return int(to.Uint64(v))
 	case FormatUInt16:
@@ -202,6 +214,12 @@ func (c *Characteristic) convert(v interface{}) interface{} {
 		return int(to.Uint64(v))
 	case FormatBool:
 		return to.Bool(v)
+	case FormatString, FormatTLV8, FormatData:
+		if str, ok := v.(string); ok {
+			return str
+		}
+		// only strings are valid
+		return nil
 	default:
 		return v
 	}
